@@ -99,6 +99,10 @@ def run(ctx, idx):
     # name
     e = args.get("command")
     ok = isinstance(e, ast.Call) and isinstance(e.func, ast.Attribute) and e.func.attr == "get" and idx.qualname(fi.module, e.func.value, fi) == "mpilot.utils.EEMS_COMMANDS" and len(e.args) == 2 and is_node_attr(e.args[0], "command") and is_node_attr(e.args[1], "command")
+    if not ok and isinstance(raw_args.get("command"), ast.Name):
+        ndefs = [n_ for n_ in own_nodes(fi.node) if isinstance(n_, ast.Assign) and any(isinstance(t_, ast.Name) and t_.id == raw_args["command"].id for t_ in n_.targets)]
+        if len(ndefs) > 1:
+            raise AnalysisError("C16.b: the converted command name `%s` is chosen among %d expressions under conditions; which files each applies to is outside the recognised forms" % (raw_args["command"].id, len(ndefs)))
     ctx.ob("C16.b", "%s::name" % fi.key, utils.rel, ctor.lineno, ok, "name = EEMS_COMMANDS.get(old, old)" if ok else "the converted command name is `%s`, not EEMS_COMMANDS.get(node.command, node.command)" % K.src(e))
     # result name
     e = args.get("result_name")
@@ -344,6 +348,28 @@ def run(ctx, idx):
                    "names are refused by a pattern that admits every name the MPilot syntax admits (L(ID) is included in it)" if wit is None else
                    "the conversion refuses result names that do not match `%s`, but the MPilot syntax allows more: `%s` is a valid result name (token ID) the pattern rejects, so an EEMS 2.0 model whose translation `%s = ...` loads is refused" % (pat, wit, wit))
             continue
+        # a refusal by NAME of the command: `node.command in <constant collection>` (commands EEMS 2.0 had and MPilot has not).  It
+        # takes nothing away when none of those names is one the table maps - the file is refused anyway, later, as an unknown
+        # command; a STRING on the right makes `in` a substring test (`"AND" in "EMDSANDWTDEMDSAND"`)
+        conj0 = guard.values if isinstance(guard, ast.BoolOp) and isinstance(guard.op, ast.And) else [guard]
+        byname = [t_ for t_ in conj0 if isinstance(t_, ast.Compare) and len(t_.ops) == 1 and isinstance(t_.ops[0], ast.In) and is_node_attr(t_.left, "command")]
+        if byname:
+            try:
+                coll = idx.const(fi.module, byname[0].comparators[0], fi)
+            except Exception:
+                coll = None
+            if isinstance(coll, str):
+                hit = sorted(k_ for k_ in table if k_ in coll)
+                ctx.ob("C16.b", con, utils.rel, rz.lineno, not hit, "substring test against a text that contains no mapped name" if not hit else
+                       "`%s` tests the command name against the STRING %r - a substring test (adjacent literals without a comma make one string): the mapped EEMS 2.0 name%s %s %s part of it and %s refused, while the MPilot file it maps to loads" % (
+                           K.src(byname[0]), coll, "s" if len(hit) > 1 else "", ", ".join(hit[:3]), "are" if len(hit) > 1 else "is", "are" if len(hit) > 1 else "is"))
+                continue
+            if isinstance(coll, (tuple, list, set, frozenset)) and all(isinstance(x_, str) for x_ in coll):
+                hit = sorted(set(coll) & set(table))
+                ctx.ob("C16.b", con, utils.rel, rz.lineno, not hit, "refused by name: none of %s is a name the table maps (such a file is refused in any case, as an unknown command)" % sorted(coll) if not hit else
+                       "the conversion refuses %s, which the table maps to an MPilot command: the mapped file loads, the EEMS 2.0 file does not" % ", ".join(hit))
+                continue
+            raise AnalysisError("C16.b: the conversion refuses commands by name against `%s`, which is not a constant the analyser can read" % K.src(byname[0].comparators[0])[:40])
         absent = set()
         conj = guard.values if isinstance(guard, ast.BoolOp) and isinstance(guard.op, ast.And) else [guard]
         for t in conj:
